@@ -7,6 +7,9 @@ baseline = json.load(open('/root/.vp/BASELINE.json'))['cmd'] if os.path.exists('
 SIM = "deterministic simulation with fault injection (seeded schedules over real olric+memberlist+redcon+go-redis in one synctest bubble)"
 NOTE = "Trusts the simulator seams (simnet, simsync, fake clock) and that the mechanical source rewrite preserves olric's semantics; 1 P per run; sampling."
 claimed = {
+ "C17": dict(level="exploration", design="DESIGN.md §8 C17",
+   text="Seeded samples from boundary sets of every supported value type stored under keys of 0-255 arbitrary bytes through the embedded or cluster client and read back into the same type through the other client, and again after a member joined and partitions migrated (R 1-2); too long keys and entries of table size -1/0/+1/x2 must be rejected with the documented errors and leave neighbours intact. The simulator contributes replication, migration between write and read and the kill-from-outside watchdog that turns an endless loop or a panic into a reported violation.",
+   note=NOTE + " The value space is sampled (input generation); the simulated part is replication/migration between the write and the read.", technique=SIM + "; typed round-trip oracle across replication and migration"),
  "C19": dict(level="exploration", design="DESIGN.md §8 C19",
    text="Seeded search: two DMaps with colliding name+key concatenations and identical keys, one optionally eviction-bounded, sequential chains on both through all entry points, a Destroy of one while another client writes to the other; afterwards reads through every member, scans, DM.GETENTRY census and STATS must show the destroyed DMap empty on primaries and backups yet writable, and the other DMap equal to its sequential model (values, ttls, lock).",
    note=NOTE, technique=SIM + "; sequential model per DMap + emptiness census after Destroy"),
